@@ -300,6 +300,13 @@ def run_bind(ctx, pid, run, idx, replay, BUILD, ROOT):
                 open(casefile, "w").write(cl[i] + "\n")
                 res["diffs"].append({"correspondence": "binding model (coq/Model/TypeInfo.v, Bind.v) vs internal/typeinfo + internal/expr",
                                      "case_file": casefile, "implementation": a[:600], "model": b[:600]})
+                # C07 is an "if and only if" and the theorems of Properties/C07.v prove the model accepts exactly by the rule: a case
+                # that one of the two prepares and the other rejects is an input on which the implementation leaves the rule
+                if pid == "C07" and proj is proj_bind_c07 and a.startswith("PREPARED") != b.startswith("PREPARED") \
+                        and sum(1 for f in res["failing"] if f.get("oracle") == "prepare-acceptance-differs-from-the-rule") < 5:
+                    res["failing"].append({"property": "C07", "oracle": "prepare-acceptance-differs-from-the-rule", "layer": "bind",
+                                           "case_file": casefile, "case": cl[i][:2000],
+                                           "detail": "implementation: %s; the rule (model, Properties/C07.v): %s" % (a[:300], b[:300])})
     if len(impl) != len(model):
         res["diffs"].append({"correspondence": "bind", "error": "result counts differ: impl %d model %d" % (len(impl), len(model))})
     for l in open(os.path.join(out, "oracle.jsonl")):
